@@ -33,7 +33,7 @@ ASSUMPTIONS = [
     'macro meanings are those of the "Macros" chapter of the Michelson reference as transcribed in mc/ref/macrodef.py '
     '(validated against the Octez macro vectors recorded in tests/.../test_repl/test_macros.py)',
     'annotations do not change the values a macro computes; only values (not type annotations) are compared',
-    'code arguments are taken from a library of 9 bodies that touch only the top of their stack',
+    'code arguments are taken from a library of 9 bodies that touch only the top of their stack, plus one (MAP_CxR only) that reads the element below its argument',
     'input stacks are built with PUSH by the same interpreter run; PUSH of int/bool/unit/pair/option/or literals is trusted',
 ]
 LEVEL_TEXT = ('exhaustive over macro names up to the bound and over the listed stacks; the reference is a transcription of the '
@@ -58,6 +58,8 @@ BODIES = {
     'swap': ('{ SWAP }', lambda s: [s[1], s[0]] + s[2:]),
     'fail5': ('{ PUSH int 5 ; FAILWITH }', _fail5),
     'flip': ('{ UNPAIR ; SWAP ; PAIR }', lambda s: [(s[0][1], s[0][0])] + s[1:]),
+    # a body that reads BELOW its argument: for MAP_C[AD]+R the body must see  component : S  (nothing in between)
+    'addbelow': ('{ DUP 2 ; ADD }', lambda s: [s[0] + s[1]] + s[1:]),
 }
 
 # --- values <-> JSON, Michelson text ------------------------------------------------------------------
@@ -380,6 +382,10 @@ def cases_for(group, tier):
                         for v in path_values(p):
                             for body in ('add100', 'drop_push7', 'id', 'fail5'):
                                 yield {'macros': [[f'MAP_C{p}R', ann, [body]]], 'stack': J([v] + t)}
+                            # only paths ending in A: the reference expansion of MAP_CDR runs the body on  cdr : pair : S,
+                            # so what a body sees below its argument is pinned for MAP_C..AR only
+                            if p.endswith('A') and t and isinstance(t[0], int) and not isinstance(t[0], bool):
+                                yield {'macros': [[f'MAP_C{p}R', ann, ['addbelow']]], 'stack': J([v] + t)}
                         deep = complete_tree(len(p) + 1, [0])
                         for body in ('flip', 'id', 'drop_push7'):
                             yield {'macros': [[f'MAP_C{p}R', ann, [body]]], 'stack': J([deep] + t)}
